@@ -47,6 +47,9 @@ type Behaviour struct {
 	Level   int32 `json:"level,omitempty"`
 	// Stream is the list of replies of a server-stream handler.
 	Stream []StreamItem `json:"stream,omitempty"`
+	// WrapErr wraps the status error the handler returns: 1 = fmt.Errorf("...: %w"), 2 = wrapped
+	// twice, 3 = errors.Join with a plain error (grpc's status.FromError looks through all three).
+	WrapErr int `json:"wrap_err,omitempty"`
 	// StampErr appends " tok=<token> srv=<server>" to the error message.
 	StampErr bool `json:"stamp_err,omitempty"`
 	// StreamEndless makes a server-stream handler keep sending replies (after
@@ -374,18 +377,33 @@ func (s *impl) nextSerial() uint64 {
 }
 
 func (s *impl) errOf(b Behaviour, token uint64) error {
+	return HandlerErr(b, token, s.i)
+}
+
+// HandlerErr is the error a handler with behaviour b returns for the request with the given
+// token on server srv (nil if the behaviour does not fail).
+func HandlerErr(b Behaviour, token uint64, srv int) error {
 	msg := b.ErrMsg
 	if b.StampErr {
 		// the error names the request it answers and the server that produced it (error provenance)
-		msg = fmt.Sprintf("%s tok=%d srv=%d", b.ErrMsg, token, s.i)
+		msg = fmt.Sprintf("%s tok=%d srv=%d", b.ErrMsg, token, srv)
 	}
 	if b.PlainErr {
 		return errors.New(msg)
 	}
-	if b.ErrCode > 0 {
-		return status.Error(codes.Code(b.ErrCode), msg)
+	if b.ErrCode <= 0 {
+		return nil
 	}
-	return nil
+	err := status.Error(codes.Code(b.ErrCode), msg)
+	switch b.WrapErr {
+	case 1:
+		return fmt.Errorf("handler: %w", err)
+	case 2:
+		return fmt.Errorf("outer: %w", fmt.Errorf("inner: %w", err))
+	case 3:
+		return errors.Join(err, errors.New("and another thing"))
+	}
+	return err
 }
 
 func (s *impl) twoWay(ctx gorums.ServerCtx, method string, req *puppet.Req) (*puppet.Rep, error) {
